@@ -412,7 +412,8 @@ def run(pid, tier, seed, t0):
             f.write(open(p).read())
     recs = vlib.read_ndjson(all_path)
     mon, viols = run_monitor(pid, all_path, "all")
-    if mon.distinct != len(recs):
+    if not viols and mon.distinct != len(recs):
+        # (a schedule is followed up to its first falsifying observation only, so with violations fewer)
         vlib.log(mon.out[-3000:])
         raise vlib.ToolError(f"monitor looked at {mon.distinct} of {len(recs)} records")
     sched_map, first, by_key = analyse(pid, recs, viols, verdict)
